@@ -1,12 +1,16 @@
 """C04 — writers emit every batch once, in order, as well-formed FASTA/FASTQ/JSON/CSV."""
-import json, itertools, csv, io, gzip
+import json, itertools, csv, io, gzip, os, subprocess
 from concurrent.futures import ThreadPoolExecutor
+import vlib
 
 PROPS = ["C04/Props.v"]
 META = dict(
-    text="Rocq theorems over an executable transcription of the re-sequencing writer loop shared by WriteSeqFileChunk (FASTA/FASTQ), WriteJSON and WriteCSV: for every list of formatted chunks (empty ones included) and EVERY arrival permutation the device receives concat(chunks) (FASTA/FASTQ), '[\\n' + join ',\\n' (non-empty chunks) + '\\n]\\n' (JSON) or header + rows (CSV), followed by exactly one Close. The model is tied to the code on every run: the real WriteFasta/WriteFastq/WriteJSON/WriteCSV are driven with one formatting worker and an input iterator delivering the batches in every permutation of <=5 (thorough <=6, sampled 7) batch numbers x every subset of empty batches into an in-memory io.WriteCloser counting Close; bytes and close count are compared with the model evaluated by vm_compute, and a Python oracle checks the bytes, the record ids, json.loads / encoding/json validity and the CSV rows.",
-    note="Trusted: Coq kernel + vm_compute; harness and generators; the Wfile/bufio layer is a pass-through in this model (its failure behaviour is C18); the record formatters (FormatFastaBatch, FormatJSONBatch, FormatCVSBatch) are taken as the source of the chunks, not modelled (that a chunk is a ',\\n'-joined list of JSON objects is checked by parsing, not proved). With several formatting workers the arrival order is not observable: those cases are compared with the model under the identity arrival (the theorems say the result does not depend on it). The unrepaired WriteJSON is kept as json_writer_orig with C04_json_orig_refuted.")
-TRUSTED = ["record formatters FormatFastaBatch/FormatFastqBatch/FormatJSONBatch/FormatCVSBatch produce the chunks (not modelled); JSON validity of the framed output is checked by json.loads and encoding/json on every run"]
+    text="Rocq theorems over an executable transcription of the re-sequencing writer loop shared by WriteSeqFileChunk (FASTA/FASTQ), WriteJSON and WriteCSV: for every list of formatted chunks (empty ones included) and EVERY arrival permutation the device receives concat(chunks) (FASTA/FASTQ), '[\\n' + join ',\\n' (non-empty chunks) + '\\n]\\n' (JSON) or header + rows (CSV), followed by exactly one Close. Round 2, over RECORDS: FormatJSONBatch and FormatCVSBatch are inside the model; C04_json_is_array: if every record is a serialised JSON object (executable RFC 8259 recogniser written as a pushdown automaton, Json.v) then for every batch partition and arrival permutation the output is ONE grammatical JSON text, an array whose elements are exactly the records of all batches in order; C04_csv_rows / C04_csv_rows_decodable: header line (inside batch 0) + one encoding/csv line per record in order, and a reader of that line syntax gets header and rows back; completion order: the result iterator ends only after the sink is closed (closing-script LTS; C04_iter_end_implies_sink_closed, refuted for the unrepaired order). Tied to the code on every run: the real writers are driven with one formatting worker and an input iterator delivering the batches in every permutation of <=5 (thorough <=6, sampled 7) batch numbers x every subset of empty batches into an in-memory io.WriteCloser counting Close (also: slow sink, OptionDontCloseFile, chunk sizes of exactly 4095/4096/4097 bytes and beyond, records with quotes/commas/newlines/leading blanks/non-ASCII/control characters); bytes, close count and 'sink closed when the result iterator ended' are compared with the model (vm_compute) and a Python oracle (json.loads / encoding/json / csv.reader); the real JSONRecord/CSVRecord outputs are fed to the Coq recogniser and formatter models (records are objects, FormatJSONBatch/FormatCVSBatch = model, output = array of the records / decodable rows); the recogniser is compared with json.loads on ~1500 valid and mutated texts; obicsv and obiconvert --json-output are run to stdout and to -o FILE.",
+    note="Trusted: Coq kernel + vm_compute; harness and generators; the Wfile/bufio layer is a pass-through in this model (its failure behaviour is C18). JSONRecord (go-json MarshalIndent + unescaping) and CSVRecord are not modelled: that each record is a JSON object is the HYPOTHESIS of C04_json_is_array, discharged per run by evaluating the recogniser on the real records (and by json.loads); FormatFastaBatch/FormatFastqBatch are taken as the source of the chunks. The recogniser does not check UTF-8 well-formedness and json_array_objects only accepts arrays of objects/arrays. The CSV line model follows encoding/csv's Writer (Comma=',', UseCRLF=false; unicode.IsSpace of the first rune transcribed); the CSV reader of the round-trip theorem is the model's own (Go's reader skips empty lines and rewrites CRLF inside quotes: not claimed). Completion order: goroutines are abstracted to the closing script [ChanClose; WaitWriter; IterClose] - Go channel/WaitGroup semantics are the LTS primitives; the tie is the harness observation on every run (slow sink included). With several formatting workers the arrival order is not observable: those cases are compared with the model under the identity arrival. OptionDontCloseFile runs are checked by the oracle only. The unrepaired WriteJSON is kept as json_writer_orig with C04_json_orig_refuted.")
+TRUSTED = ["JSONRecord / CSVRecord / FormatFastaBatch / FormatFastqBatch produce the records resp. chunks (not modelled); 'every record is a JSON object' is a hypothesis discharged on the real records on every run (Coq recogniser + json.loads)",
+           "JSON recogniser Json.v written by hand from RFC 8259 (no UTF-8 validation), compared with Python's json.loads on valid and mutated texts on every run",
+           "encoding/csv Writer line syntax transcribed by hand (Csv.v), tied by the correspondence run on the real FormatCVSBatch",
+           "completion order: Go channel / WaitGroup semantics abstracted to a 3-action closing script"]
 
 WRITERS = ["fasta", "fastq", "json", "csv"]
 KIND = dict(fasta="KFasta", fastq="KFastq", json="KJson", csv="KCsv")
@@ -32,7 +36,50 @@ CORPUS = [
     dict(writer="fasta", sizes=[2, 0, 3, 1], arrival=[3, 1, 2, 0], workers=1),
     dict(writer="fastq", sizes=[2, 0, 3, 1], arrival=[1, 3, 0, 2], workers=1),
     dict(writer="fastq", sizes=[], arrival=[], workers=1),
+    # round 2 --- records with quotes / commas / newlines / leading blanks / non-ASCII text (FormatJSONBatch, FormatCVSBatch modelled)
+    dict(writer="json", sizes=[3, 0, 4, 2], arrival=[3, 1, 0, 2], workers=1, rich=True),
+    dict(writer="csv", sizes=[3, 0, 4, 2], arrival=[3, 1, 0, 2], workers=1, rich=True),
+    dict(writer="csv", sizes=[0, 0, 5], arrival=[2, 0, 1], workers=1, rich=True),
+    dict(writer="json", sizes=[8, 8, 8], arrival=[2, 1, 0], workers=1, rich=True),
+    dict(writer="csv", sizes=[8, 8, 8], arrival=[2, 1, 0], workers=1, rich=True),
+    dict(writer="fasta", sizes=[3, 2], arrival=[1, 0], workers=1, rich=True),
+    # JSONRecord's unescaping step: control characters and backslash-u in the data
+    dict(writer="json", sizes=[1], arrival=[0], workers=1, rich=True, ctl=True, tag="fixed:json-record-unescape (definition C:\\users\\me: panic)"),
+    dict(writer="json", sizes=[0, 1], arrival=[0, 1], workers=1, rich=True, ctl=True, tag="fixed:json-record-unescape (raw control character inside a string)"),
+    dict(writer="json", sizes=[0, 0, 1], arrival=[0, 1, 2], workers=1, rich=True, ctl=True, tag="fixed:json-record-unescape (backslash-u-0041 in the data becomes the invalid escape backslash-A)"),
+    dict(writer="csv", sizes=[2, 2], arrival=[1, 0], workers=1, rich=True, ctl=True),
+    # completion order: a slow sink makes 'the result iterator ended before the sink was closed' deterministic
+    dict(writer="fasta", sizes=[1, 1], arrival=[1, 0], workers=1, slow_ms=15, tag="fixed:result-iterator-ends-before-sink-closed"),
+    dict(writer="fastq", sizes=[1, 1], arrival=[0, 1], workers=1, slow_ms=15, tag="fixed:result-iterator-ends-before-sink-closed"),
+    dict(writer="json", sizes=[1, 1], arrival=[0, 1], workers=1, slow_ms=15, tag="fixed:result-iterator-ends-before-sink-closed"),
+    dict(writer="csv", sizes=[1, 1], arrival=[1, 0], workers=1, slow_ms=15, tag="fixed:result-iterator-ends-before-sink-closed"),
+    dict(writer="fasta", sizes=[], arrival=[], workers=1, slow_ms=15),
+    dict(writer="json", sizes=[2, 1, 1], arrival=[0, 1, 2], workers=3, slow_ms=5),
+    # OptionDontCloseFile: every byte must still reach the sink, which stays open
+    dict(writer="fasta", sizes=[1, 1], arrival=[0, 1], workers=1, no_close=True, tag="fixed:dont-close-never-flushes"),
+    dict(writer="fastq", sizes=[2, 0, 1], arrival=[2, 1, 0], workers=1, no_close=True, tag="fixed:dont-close-never-flushes"),
+    dict(writer="json", sizes=[1, 1], arrival=[1, 0], workers=1, no_close=True),
+    dict(writer="csv", sizes=[1, 1], arrival=[1, 0], workers=1, no_close=True),
+    dict(writer="fasta", bytes=[5000, 4096], arrival=[1, 0], workers=1, no_close=True, tag="fixed:dont-close-never-flushes"),
+    dict(writer="fasta", sizes=[2, 1], arrival=[1, 0], workers=1, no_close=True, compressed=True, tag="fixed:dont-close-never-flushes (gzip trailer)"),
 ]
+# chunk sizes around the 4096-byte buffer of bufio: per chunk and in total; chunks larger than the
+# buffer arriving when it is empty; zero-length chunks everywhere
+BOUNDARY = [
+    ([4095], [0]), ([4096], [0]), ([4097], [0]), ([0, 4096, 0], [2, 1, 0]), ([0, 0, 4097], [2, 0, 1]),
+    ([4095, 4096, 4097, 0], [3, 1, 0, 2]), ([2048, 2047], [1, 0]), ([2048, 2048], [1, 0]), ([2048, 2049], [0, 1]),
+    ([4000, 95], [0, 1]), ([4000, 96, 0], [1, 0, 2]), ([4000, 97], [1, 0]), ([100, 3996, 1], [2, 1, 0]),
+    ([9000], [0]), ([0, 9000, 0, 100], [0, 1, 2, 3]), ([100, 9000], [1, 0]), ([8192, 0, 8193], [2, 1, 0]),
+    ([1365, 1365, 1366], [2, 0, 1]), ([4096, 4096], [1, 0]), ([60, 0, 0, 4036], [3, 2, 1, 0]),
+]
+
+
+def boundary_cases():
+    for w in WRITERS:
+        for sizes, arr in BOUNDARY:
+            if w == "csv" and sizes[0] and sizes[0] < 40:
+                continue
+            yield dict(writer=w, bytes=sizes, arrival=arr, workers=1)
 
 
 def exhaustive(n, writers=WRITERS):
@@ -48,23 +95,51 @@ def random_case(rng, nmax=7, workers=None):
     wk = workers if workers is not None else (1 if rng.random() < 0.6 else rng.randrange(2, 9))
     if wk == 1:
         rng.shuffle(arr)
-    return dict(writer=rng.choice(WRITERS), sizes=[rng.choice([0, 0, 1, 1, 2, 3]) for _ in range(n)], arrival=arr, workers=wk,
-                compressed=(rng.random() < 0.1))
+    c = dict(writer=rng.choice(WRITERS), sizes=[rng.choice([0, 0, 1, 1, 2, 3]) for _ in range(n)], arrival=arr, workers=wk,
+             compressed=(rng.random() < 0.1))
+    if rng.random() < 0.35:
+        c["rich"] = True
+    if rng.random() < 0.08:
+        c["slow_ms"] = rng.choice([1, 3, 8])
+    if rng.random() < 0.05:
+        c["no_close"] = True
+    if rng.random() < 0.12 and n:
+        # chunk sizes in bytes around the 4096-byte buffer, zero-length chunks anywhere
+        c["bytes"] = [rng.choice([0, 0, 60, 1000, 2048, 4095, 4096, 4097, 4100, 8191, 8192, 8193, rng.randrange(40, 9000)]) for _ in range(n)]
+        if c["writer"] == "csv" and 0 < c["bytes"][0] < 40:
+            c["bytes"][0] = 60
+        c.pop("rich", None)
+    return c
+
+
+def nbatches(c):
+    return len(c["bytes"]) if c.get("bytes") else len(c["sizes"])
 
 
 def to_vh(c):
-    return dict(writer=c["writer"], sizes=c["sizes"], arrival=c["arrival"], workers=c.get("workers", 1), compressed=bool(c.get("compressed")))
+    d = dict(writer=c["writer"], sizes=c.get("sizes") or [], arrival=c["arrival"], workers=c.get("workers", 1), compressed=bool(c.get("compressed")))
+    for k in ("bytes", "rich", "ctl", "slow_ms", "no_close", "want_recs"):
+        if c.get(k):
+            d[k] = c[k]
+    return d
 
 
-def run_impl(ctx, cases, nproc=8):
-    """Run the real writers; the cases are split over a few harness processes."""
+def run_impl(ctx, cases, nproc=8, post=None):
+    """Run the real writers; the cases are split over a few harness processes. [post(i, case, obs)] is applied
+    to every observation as soon as its part is back (oracle + dropping of the bulky fields: memory)."""
     vc = [to_vh(c) for c in cases]
+
+    def part(lo, hi, tmo):
+        r = ctx.vh_robust("c04", vc[lo:hi], timeout=tmo, one_timeout=15)
+        if post:
+            r = [post(lo + j, cases[lo + j], o) for j, o in enumerate(r)]
+        return r
     if len(vc) < 400:
-        return ctx.vh_robust("c04", vc, timeout=300, one_timeout=15)
-    k = (len(vc) + nproc - 1) // nproc
-    parts = [vc[i:i + k] for i in range(0, len(vc), k)]
+        return part(0, len(vc), 300)
+    k = 4000 if len(vc) > 32000 else (len(vc) + nproc - 1) // nproc
+    bounds = [(i, min(i + k, len(vc))) for i in range(0, len(vc), k)]
     with ThreadPoolExecutor(max_workers=nproc) as ex:
-        res = list(ex.map(lambda p: ctx.vh_robust("c04", p, timeout=900, one_timeout=15), parts))
+        res = list(ex.map(lambda b: part(b[0], b[1], 900), bounds))
     return [o for r in res for o in r]
 
 
@@ -80,10 +155,18 @@ def out_bytes(c, o):
 
 def check(c, o):
     """Direct oracle: the statement of C04 evaluated on what the implementation did. Returns None or a reason."""
+    if o.get("kind") == "skip":
+        return None       # a chunk of exactly that many bytes cannot be formed (counted in the coverage)
     if o.get("kind") != "ok":
         return "writer did not terminate / crashed: %s" % (o.get("err") or o.get("kind"))
-    if o["closes"] != 1:
-        return "output closed %d times" % o["closes"]
+    if c.get("no_close"):
+        if o["closes"] != 0:
+            return "OptionDontCloseFile: the sink was closed %d times" % o["closes"]
+    else:
+        if o["closes"] != 1:
+            return "output closed %d times" % o["closes"]
+        if not o.get("closed_at_iter_end"):
+            return "the result iterator ended before the sink was closed (a caller draining the returned iterator finds an incomplete, open output)"
     if o.get("late_writes"):
         return "write after Close"
     out = out_bytes(c, o)
@@ -110,20 +193,30 @@ def check(c, o):
             return "output is not valid JSON (%s)" % e
         if not isinstance(v, list) or [r.get("id") if isinstance(r, dict) else None for r in v] != ids:
             return "JSON array does not hold one object per record in order"
+        recs = [bytes.fromhex(x) for b in (o.get("recs") or []) for x in b]
+        try:
+            if o.get("recs") is not None and [json.loads(r.decode("utf8")) for r in recs] != v:
+                return "the elements of the JSON array are not the serialised records in order"
+        except Exception as e:
+            return "a serialised record is not valid JSON (%s)" % e
         if not c.get("compressed") and (not o.get("json_ok") or o.get("json_ids") != ids):
             return "encoding/json rejects the output or reads other ids"
         if out != b"[\n" + b",\n".join(x for x in chunks if x) + b"\n]\n":
             return "bytes differ from '[\\n' + join(',\\n', non-empty batches) + '\\n]\\n'"
         return None
     if w == "csv":
-        if len(c["sizes"]) == 0:
+        if nbatches(c) == 0:
             return None   # no batch: the statement only demands the single Close
         header = bytes.fromhex(o.get("header") or "")
-        rows = list(csv.reader(io.StringIO(out.decode("utf8"))))
-        if not rows or rows[0] != ["id", "sequence"]:
+        rows = list(csv.reader(io.StringIO(out.decode("utf8"), newline="")))
+        hdr = [bytes.fromhex(x).decode("utf8") for x in (o.get("hdr_fields") or [])]
+        if not rows or rows[0] != hdr or hdr[:1] != ["id"]:
             return "first line is not the header"
         if [r[0] for r in rows[1:]] != ids:
             return "rows %r instead of %r" % ([r[0] for r in rows[1:]], ids)
+        want = [[bytes.fromhex(x).decode("utf8") for x in r] for b in (o.get("fields") or []) for r in b]
+        if rows[1:] != want:
+            return "the rows read back by a CSV reader are not the fields of the records in order"
         if out != header + b"".join(chunks):
             return "bytes differ from header + rows of the batches in order"
         return None
@@ -143,33 +236,95 @@ class Table:
         return self.names[b]
 
     def defs(self):
-        return "".join("Definition %s : list N := [%s]%%N.\n" % (n, ";".join(str(x) for x in b)) for b, n in self.names.items())
+        return "".join("Definition %s : list N := %s.\n" % (n, packed(b)) for b, n in self.names.items())
 
 
 def nlist(b):
     return "[" + ";".join(str(x) for x in b) + "]%N" if b else "[]"
 
 
+def packed(b):
+    """Gallina term for a byte string; long periodic runs (sequence / quality lines) as [cyc n pattern]"""
+    if len(b) < 200:
+        return nlist(b)
+    segs, lit, i, n = [], [], 0, len(b)
+    while i < n:
+        best = None
+        if n - i >= 60:
+            for per in (1, 4, 20, 61):
+                if i + 2 * per > n or b[i:i + per] != b[i + per:i + 2 * per]:
+                    continue
+                run = 2 * per
+                while i + run < n and b[i + run] == b[i + run - per]:
+                    run += 1
+                if run >= 60 and (best is None or run > best[1]):
+                    best = (per, run)
+        if best:
+            if lit:
+                segs.append(nlist(bytes(lit))); lit = []
+            segs.append("cyc %d %s" % (best[1], nlist(b[i:i + best[0]])))
+            i += best[1]
+        else:
+            lit.append(b[i]); i += 1
+    if lit:
+        segs.append(nlist(bytes(lit)))
+    return "(" + " ++ ".join(segs) + ")" if segs else "[]"
+
+
+def out_term(tab, c, o):
+    """the bytes received by the sink; when they are the expected framing of the chunks, written with the chunk names"""
+    out = out_bytes(c, o) or b""
+    if len(out) < 200:
+        return nlist(out)
+    chunks = [bytes.fromhex(x) for x in (o.get("chunks") or [])]
+    w = c["writer"]
+    if w == "json":
+        parts = []
+        for x in chunks:
+            if x:
+                parts += ([b",\n"] if parts else []) + [x]
+        parts = [b"[\n"] + parts + [b"\n]\n"]
+    else:
+        parts = ([bytes.fromhex(o.get("header") or "")] if w == "csv" and chunks else []) + chunks
+    if b"".join(parts) == out:
+        return "(" + " ++ ".join(tab.ref(x) for x in parts if x) + ")"
+    return tab.ref(out)
+
+
 def case_term(tab, c, o):
     chunks = [bytes.fromhex(x) for x in (o.get("chunks") or [])]
-    arrival = c["arrival"] if c.get("workers", 1) == 1 else list(range(len(c["sizes"])))
+    arrival = c["arrival"] if c.get("workers", 1) == 1 else list(range(nbatches(c)))
     return "mkc %s %s [%s] [%s] %s %d" % (
         KIND[c["writer"]], tab.ref(bytes.fromhex(o.get("header") or "")), "; ".join(tab.ref(x) for x in chunks),
-        "; ".join(str(i) for i in arrival), nlist(out_bytes(c, o) or b""), o["closes"])
+        "; ".join(str(i) for i in arrival), out_term(tab, c, o), o["closes"])
 
 
 def evaluate(ctx, cases, broken, label, corr_idx=None, fn="mismatches"):
-    obs = run_impl(ctx, cases)
-    fails = []
-    for i, (c, o) in enumerate(zip(cases, obs)):
+    keep = set(corr_idx) if corr_idx is not None else None
+
+    def post(i, c, o):
         why = check(c, o)
-        if why:
-            fails.append((i, why))
-    for i, why in fails[:3]:
-        ctx.violation("%s_oracle_%d" % (label, i), dict(property="C04", kind="direct-oracle", case=cases[i], why=why,
-                                                      implementation=dict(obs[i], out_text=(out_bytes(cases[i], obs[i]) or b"").decode("latin1")),
-                                                      expected="every batch once, in order, framed; closed once"))
-    idx = [i for i in (corr_idx if corr_idx is not None else range(len(cases))) if obs[i].get("kind") == "ok" and out_bytes(cases[i], obs[i]) is not None]
+        if (why is None and keep is not None and i not in keep and not c.get("rich") and not c.get("want_recs")
+                and 300 < i < len(cases) - 1):
+            o = dict(kind=o.get("kind"), closes=o.get("closes"), closed_at_iter_end=o.get("closed_at_iter_end"))   # the rest is not looked at again
+        o["_why"] = why
+        return o
+    obs = run_impl(ctx, cases, post=post)
+    fails = [(i, o["_why"]) for i, o in enumerate(obs) if o.get("_why")]
+    shown = set()
+    for i, why in fails:
+        key = (cases[i]["writer"], why[:30])
+        if key in shown or len(shown) >= 8:
+            continue
+        shown.add(key)
+        ob = dict(obs[i], out_text=(out_bytes(cases[i], obs[i]) or b"").decode("latin1")[:3000])
+        for k in ("out", "chunks", "fchunks", "recs", "fields"):
+            if len(json.dumps(ob.get(k) or "")) > 6000:
+                ob[k] = "(%d bytes of hex omitted)" % len(json.dumps(ob[k]))
+        ctx.violation("%s_oracle_%d" % (label, i), dict(property="C04", kind="direct-oracle", case=cases[i], why=why, implementation=ob,
+                                                      expected="every batch once, in order, framed; closed once, before the result iterator ends"))
+    idx = [i for i in (corr_idx if corr_idx is not None else range(len(cases)))
+           if obs[i].get("kind") == "ok" and out_bytes(cases[i], obs[i]) is not None and not cases[i].get("no_close")]
     tab = Table()
     terms = [case_term(tab, cases[i], obs[i]) for i in idx]
     bad, err = ctx.correspond(label, IMPORTS + tab.defs(), terms, fn=fn, shard=400)
@@ -180,13 +335,122 @@ def evaluate(ctx, cases, broken, label, corr_idx=None, fn="mismatches"):
 
 
 def nontrivial(c):
-    return c["arrival"] != sorted(c["arrival"]) or 0 in c["sizes"] or c.get("workers", 1) > 1
+    return c["arrival"] != sorted(c["arrival"]) or 0 in (c.get("bytes") or c["sizes"]) or c.get("workers", 1) > 1
+
+
+# ---------------------------------------------------------------- round 2: records, grammar, rows
+def hexs(xs):
+    return "[" + "; ".join(packed(bytes.fromhex(x)) for x in xs) + "]"
+
+
+def fcase_term(c, o):
+    out = out_bytes(c, o) or b""
+    if c["writer"] == "json":
+        return "FJson [%s] %s %s" % ("; ".join(hexs(b) for b in (o.get("recs") or [])), hexs(o.get("chunks") or []), packed(out))
+    return "FCsv %s [%s] %s %s" % (hexs(o.get("hdr_fields") or []),
+                                   "; ".join("[" + "; ".join(hexs(r) for r in b) + "]" for b in (o.get("fields") or [])),
+                                   hexs(o.get("fchunks") or []), packed(out))
+
+
+def rand_json_value(rng, depth=0):
+    k = rng.randrange(9 if depth < 3 else 6)
+    if k == 0:
+        return rng.choice([0, -0.0, 1, -12, 3.5, 1e22, -2.5e-7, 10, 120, 0.001])
+    if k == 1:
+        return rng.choice([True, False, None])
+    if k in (2, 3):
+        return "".join(rng.choice(['a', 'Z', ' ', '"', '\\', '/', '\n', '\t', '\x01', 'é', '☃', '\u2028', '{', ']', ',', ':', 'u', '0']) for _ in range(rng.randrange(0, 6)))
+    if k in (4, 5):
+        return rng.choice([[], {}, "", 0, [[]], [{}], {"": {}}])
+    if k in (6, 7):
+        return [rand_json_value(rng, depth + 1) for _ in range(rng.randrange(0, 4))]
+    return {rng.choice(["k", "", "a b", 'q"', "é", "\\"]) + str(i): rand_json_value(rng, depth + 1) for i in range(rng.randrange(0, 4))}
+
+
+def json_texts(rng, n):
+    """(text, accepted by the reference parser json.loads): valid documents in several layouts and byte-level mutants."""
+    hand = ['', ' ', '[]', '{}', '[1,]', '[,1]', '{"a":1,}', '{"a"}', '{"a":}', '{1:2}', '01', '-', '-0', '0.', '.5', '1e', '1e+', '1e+5', '1E-05', '1.0e5',
+            '"a', '"\\u12G4"', '"\\u1234"', '"\\x"', '"\\/"', 'tru', 'true', 'truee', 'nul', 'null ', ' null', 'false', '[1 2]', '[1,2', '1 2', '[]]', '[[]', '{}}',
+            '"\t"', '"\x7f"', '[\n\n]\n', '[\n  {},\n  {}\n]\n', '{"a":[1,{"b":null}],"c":"d"}', '[-]', '[1.5e3,-0.0e-0]', '"\\ud800"', '[true,false,null]', '\ufeff[]',
+            '[1,\n2\r,\t3 ]', '{"a" : 1 , "b" : [ ] }', '/**/1', "'a'", '[1]x', 'x', '{"a":1 "b":2}', '{"a":1,,"b":2}', '[1,,2]', '00', '-01', '1.e1', '+1', '[+1]', '"\\"', '"\\\\"']
+    res = []
+    for t in hand:
+        res.append(t.encode("utf8"))
+    while len(res) < n:
+        v = rand_json_value(rng)
+        kw = rng.choice([dict(), dict(indent=2), dict(separators=(",", ":")), dict(ensure_ascii=False), dict(indent=1, ensure_ascii=False)])
+        t = json.dumps(v, **kw)
+        if rng.random() < 0.3:
+            t = rng.choice(["", " ", "\n", "\t \r"]) + t + rng.choice(["", " ", "\n"])
+        b = bytearray(t.encode("utf8"))
+        if rng.random() < 0.6 and b:
+            for _ in range(rng.randrange(1, 3)):
+                i = rng.randrange(len(b))
+                r = rng.random()
+                if r < 0.35:
+                    del b[i]
+                elif r < 0.7:
+                    b.insert(i, rng.choice(b' ,:"\\[]{}0123456789.eE+-tfn/u\n\x01a'))
+                else:
+                    b[i] = rng.choice(b' ,:"\\[]{}0123456789.eE+-tfn/u\n\x01a')
+                if not b:
+                    break
+        res.append(bytes(b))
+    out = []
+    for b in res:
+        try:
+            t = b.decode("utf8")
+        except UnicodeDecodeError:
+            continue            # the recogniser does not check UTF-8 well-formedness
+        if "N" in t or "I" in t:
+            continue            # json.loads accepts NaN / Infinity, RFC 8259 does not
+        try:
+            json.loads(t)
+            ok = True
+        except Exception:
+            ok = False
+        out.append((b, ok))
+    return out
+
+
+def records_check(ctx, cases, obs, broken, rng):
+    """FormatJSONBatch / FormatCVSBatch = model on the real records; the real output is one JSON text whose
+    elements are the records (Coq recogniser), CSV rows decode to the fields; the recogniser itself agrees
+    with json.loads on valid texts and mutants."""
+    idx = [i for i, (c, o) in enumerate(zip(cases, obs)) if c["writer"] in ("json", "csv") and o.get("kind") == "ok"
+           and not c.get("compressed") and (c.get("rich") or c.get("want_recs"))
+           and len(o.get("out") or "") < 60000]
+    rich = [i for i in idx if cases[i].get("rich")]
+    plain = [i for i in idx if not cases[i].get("rich")]
+    pick = rich[:400 if ctx.quick else 4000] + rng.sample(plain, min(len(plain), 300 if ctx.quick else 3000))
+    terms = [fcase_term(cases[i], obs[i]) for i in pick]
+    texts = json_texts(rng, 1500 if ctx.quick else 20000)
+    terms += ["FText %s %s" % (nlist(b), "true" if ok else "false") for b, ok in texts]
+    bad, err = ctx.correspond("records", IMPORTS, terms, fn="fmismatches", shard=250)
+    ctx.cov["record_level_cases"] = len(pick)
+    ctx.cov["recogniser_vs_json_loads_texts"] = "%d texts (%d valid)" % (len(texts), sum(1 for _, ok in texts if ok))
+    if bad is None:
+        broken.append(dict(kind="correspondence", detail=err))
+        return
+    for k in bad[:3]:
+        if k < len(pick):
+            i = pick[k]
+            o = obs[i]
+            broken.append(dict(kind="correspondence", name="corr:C04/%s/records" % cases[i]["writer"], first_diverging_case=cases[i],
+                               implementation=dict(out_text=(out_bytes(cases[i], o) or b"").decode("latin1")[:2000], recs=o.get("recs"), fields=o.get("fields"),
+                                                   hdr_fields=o.get("hdr_fields"), fchunks=o.get("fchunks")), n_diverging=len(bad)))
+        else:
+            b, ok = texts[k - len(pick)]
+            broken.append(dict(kind="correspondence", name="corr:C04/json-recogniser-vs-json.loads",
+                               first_diverging_case=dict(text=b.decode("utf8"), json_loads_accepts=ok), n_diverging=len(bad)))
+    ctx.cov["record_level_mismatches"] = len(bad)
 
 
 def run(ctx, broken):
     rng = ctx.rng
     nmax = 5 if ctx.quick else 6
-    cases = list(CORPUS)
+    cases = list(CORPUS) + list(boundary_cases())
+    n_corpus = len(cases)
     for n in range(0, nmax + 1):
         cases += list(exhaustive(n))
     n_exh = len(cases)
@@ -199,28 +463,37 @@ def run(ctx, broken):
     n_rand = 400 if ctx.quick else 6000
     cases += [random_case(rng) for _ in range(n_rand)]
     # model evaluation: everything up to 4 batches, the corpus, the random cases, a sample of the rest
-    small = [i for i, c in enumerate(cases) if len(c["sizes"]) <= (4 if ctx.quick else 5) or i < len(CORPUS) or i >= len(cases) - n_rand]
-    rest = [i for i in range(len(cases)) if len(cases[i]["sizes"]) > (4 if ctx.quick else 5) and len(CORPUS) <= i < len(cases) - n_rand]
+    small = [i for i, c in enumerate(cases) if nbatches(c) <= (4 if ctx.quick else 5) or i < n_corpus or i >= len(cases) - n_rand]
+    rest = [i for i in range(len(cases)) if nbatches(cases[i]) > (4 if ctx.quick else 5) and n_corpus <= i < len(cases) - n_rand]
     corr_idx = sorted(small + rng.sample(rest, min(len(rest), 800 if ctx.quick else 6000)))
+    plain = [i for i, c in enumerate(cases) if c["writer"] in ("json", "csv") and not c.get("rich") and not c.get("compressed") and not c.get("no_close")]
+    for i in rng.sample(plain, min(len(plain), 300 if ctx.quick else 3000)):
+        cases[i] = dict(cases[i], want_recs=True)
     obs, fails, mism = evaluate(ctx, cases, broken, "main", corr_idx)
+    records_check(ctx, cases, obs, broken, rng)
+    cli_check(ctx, broken)
     ctx.cov["evaluations"] = len(cases)
-    ctx.cov["exhaustive"] = "all arrival permutations of <=%d batches x all subsets of empty batches x 4 writers (%d histories)%s" % (
-        nmax, n_exh - len(CORPUS), "" if ctx.quick else "; 7 batches: all 5040 permutations x sampled subsets")
+    ctx.cov["chunk_sizes_not_reachable"] = sum(1 for o in obs if o.get("kind") == "skip")
+    ctx.cov["boundary_cases"] = "%d cases with chunk sizes given in bytes (4095/4096/4097 per chunk and in total, chunks > buffer on an empty buffer, zero-length chunks)" % sum(1 for c in cases if c.get("bytes"))
+    ctx.cov["exhaustive"] = True
+    ctx.cov["exhaustive_scope"] = "all arrival permutations of <=%d batches x all subsets of empty batches x 4 writers (%d histories)%s" % (
+        nmax, n_exh - n_corpus, "" if ctx.quick else "; 7 batches: all 5040 permutations x sampled subsets")
     ctx.cov["distinct_nontrivial"] = len({json.dumps(to_vh(c), sort_keys=True) for c in cases if nontrivial(c)})
     ctx.cov["rule"] = ("non-trivial = the arrival order is not the identity (a chunk is buffered and later drained), or a batch is empty, "
                        "or several formatting workers race; distinct = distinct (writer, sizes, arrival, workers, compressed)")
     dist = {}
     for c in cases:
-        k = "%s/n=%d/%s" % (c["writer"], len(c["sizes"]), "w1" if c.get("workers", 1) == 1 else "wN")
+        k = "%s/n=%d/%s" % (c["writer"], nbatches(c), "w1" if c.get("workers", 1) == 1 else "wN")
         dist[k] = dist.get(k, 0) + 1
     ctx.cov["distribution"] = dist
     ctx.cov["compressed_cases"] = sum(1 for c in cases if c.get("compressed"))
-    ctx.cov["observation_sink_closed_when_result_iterator_ended"] = "%d of %d runs (not part of C04: the commands wait for obiiter.WaitForLastPipe; a library caller that only drains the returned iterator can see the file not yet closed)" % (
-        sum(1 for o in obs if o.get("closed_at_iter_end")), len(obs))
+    ctx.cov["sink_closed_when_result_iterator_ended"] = "%d of %d closing runs (required in every run; %d runs on a slow sink)" % (
+        sum(1 for c, o in zip(cases, obs) if o.get("closed_at_iter_end") and not c.get("no_close")), sum(1 for c in cases if not c.get("no_close")),
+        sum(1 for c in cases if c.get("slow_ms")))
     ctx.cov["oracle_failures"] = len(fails)
     ctx.cov["model_vs_impl_mismatches"] = len(mism)
     ctx.samples = [dict(case=c, out=(out_bytes(c, o) or b"").decode("latin1"), closes=o.get("closes")) for c, o in
-                   [(cases[i], obs[i]) for i in (0, 1, len(CORPUS) + 40, len(cases) - 1)]]
+                   [(cases[i], obs[i]) for i in (0, 1, len(CORPUS) - 30, n_corpus + 40, len(cases) - 1)]]
     if mism and not ctx.violations:
         more = [random_case(rng, 8) for _ in range(5000)]
         evaluate(ctx, more, [], "search", corr_idx=[])
@@ -232,7 +505,72 @@ def run(ctx, broken):
         ctx.cov["note"] = "model and implementation diverge on %d cases (violations reported by the direct oracle)" % len(mism)
 
 
+# ---------------------------------------------------------------- the built commands (observe_at: obiconvert --json-output, obicsv)
+def cli_check(ctx, broken):
+    """obicsv / obiconvert --json-output, to stdout and to -o FILE (FILE exists already and is longer than the result):
+    the file / stdout holds exactly one header + one row per record, resp. one JSON array of the records, in order."""
+    bindir, err = ctx.build_cmds(["obiconvert", "obicsv"])
+    if bindir is None:
+        broken.append(dict(kind="cmd-build", detail=err))
+        return
+    d = os.path.join(vlib.BUILD, "c04_cli")
+    os.makedirs(d, exist_ok=True)
+    n = 7
+    ids = ["s%d" % i for i in range(n)]
+    fa = os.path.join(d, "in.fasta")
+    with open(fa, "w") as f:
+        f.write("".join(">%s\n%s\n" % (x, "acgt" * (3 + i)) for i, x in enumerate(ids)))
+    runs = 0
+    for cmd, kind in ((["obicsv", "-i", "-s"], "csv"), (["obiconvert", "--json-output"], "json")):
+        for mode in ("stdout", "-o"):
+            out = os.path.join(d, "out.%s.%s" % (kind, mode.strip("-")))
+            with open(out, "wb") as f:
+                f.write(b"X" * 20000)          # an older, longer result
+            argv = [os.path.join(bindir, cmd[0]), "--no-progressbar", "--max-cpu", "2", "--batch-size", "2"] + cmd[1:] + [fa]
+            try:
+                if mode == "-o":
+                    p = subprocess.run(argv + ["-o", out], stdout=subprocess.PIPE, stderr=subprocess.PIPE, timeout=60)
+                    stdout = p.stdout
+                else:
+                    with open(out, "wb") as f:
+                        p = subprocess.run(argv, stdout=f, stderr=subprocess.PIPE, timeout=60)
+                    stdout = b""
+                rc = p.returncode
+            except subprocess.TimeoutExpired:
+                rc, stdout = 124, b""
+            runs += 1
+            data = open(out, "rb").read()
+            why = None
+            if rc != 0:
+                why = "exit status %d" % rc
+            elif mode == "-o" and stdout.strip():
+                why = "-o FILE is ignored: the result went to stdout (%d bytes)" % len(stdout)
+            elif kind == "csv":
+                try:
+                    rows = list(csv.reader(io.StringIO(data.decode("utf8"), newline="")))
+                except Exception as e:
+                    rows = None
+                if not rows or rows[0] != ["id", "sequence"] or [r[0] for r in rows[1:]] != ids:
+                    why = "the output is not the header line followed by one row per record in order"
+            else:
+                try:
+                    v = json.loads(data.decode("utf8"))
+                    if not isinstance(v, list) or [r.get("id") for r in v] != ids:
+                        why = "the JSON array does not hold one object per record in order"
+                except Exception as e:
+                    why = "the output is not valid JSON (%s)" % e
+            if why:
+                ctx.violation("cli_%s_%s" % (kind, mode.strip("-")), dict(property="C04", kind="cli", case=dict(argv=cmd, mode=mode), why=why, exit=rc,
+                                                                          output_head=data[:300].decode("latin1"), output_tail=data[-120:].decode("latin1"),
+                                                                          expected="header + %d rows / array of %d objects, nothing else" % (n, n)))
+    ctx.cov["cli_runs"] = runs
+
+
 def replay(ctx, rp):
+    if rp.get("kind") == "cli":
+        cli_check(ctx, [])
+        print("replay: cli runs done; violations:", len(ctx.violations))
+        return
     c = rp.get("case") or rp.get("first_diverging_case")
     obs, fails, mism = evaluate(ctx, [c], [], "replay")
     print("replay:", c, "->", (out_bytes(c, obs[0]) or b"").decode("latin1").__repr__(), "closes", obs[0].get("closes"),
